@@ -588,4 +588,56 @@ def rule_heap_pop_order(P):
     return R
 
 
-RULES = [rule_counter_width, rule_mirror_simplify, rule_swap_loops, rule_image_fire, rule_small_hole_threshold, rule_graph_diagonals, rule_large_hole_threshold, rule_refcount_twins, rule_heap_pop_order]
+def rule_policy_reachability(P):
+    """the image and saturation templates serve three kinds of state sets: boolean (handle 0 = not in the set), integer distance (negative terminal =
+    unreachable, handle 0 = distance 0!) and EV+ distance (+infinity = unreachable).  What "unreachable" means is the policy's business
+    (ATYPE::isUnreachable / areAllReachable / setUnreachable).  The template itself must therefore never read the raw child handle of a *set* node
+    as a truth value, and never unpack a set node SPARSE_ONLY (which drops exactly the handle-0 children) — defect D21: saturation lost every
+    distance-0 state of an integer-distance set, i.e. the initial states"""
+    R = RuleResult("sibling.policy-reachability", "in prepost_set_mtrel and saturation_set_mtrel (all instantiations): a node of a set forest (arg1F / resF) is never unpacked SPARSE_ONLY and its child handles are never used as truth values; reachability is asked through the ATYPE policy")
+    n = 0
+    seen = set()
+    for f in sorted(P.fns.values(), key=lambda f: (f["file"], f["line"], f["inst"])):
+        if not f.get("cfg") or f["file"] not in ("operations/prepost_sets.cc", "operations/satur_sets.cc") or not re.search(r"(prepost_set_mtrel|saturation_set_mtrel)", f["q"]) or (f["file"], f["line"]) in seen:
+            continue
+        seen.add((f["file"], f["line"]))
+        g = Graph(f)
+        setnodes = {}
+        for k in g.nodes:
+            if k.kind == "ldef" and k.ev.get("rhs"):
+                m = re.fullmatch(r"unpacked_node::(?:New|newFromNode|newWritable|newRedundant)\((?:this->)?(resF|arg1F),.*?(FULL_ONLY|SPARSE_ONLY|FULL_OR_SPARSE)?\)", re.sub(r"\s+", "", k.ev["rhs"]))
+                if m:
+                    setnodes[k.ev["var"]] = (m.group(2), k)
+        setnodes.update({p_["name"]: (None, None) for p_ in f.get("params", []) if (p_.get("rec") or "").endswith("unpacked_node") and p_["name"] in ("C", "Cu", "nb")})
+        for u, (mode, k) in sorted(setnodes.items()):
+            if k is None:
+                continue
+            n += 1
+            R.functions.add(f["inst"])
+            R.paths += 1
+            iid = "%s: set node `%s` unpacked %s" % (base_name(f["q"]).replace(M, "")[:50], u, mode)
+            if mode == "SPARSE_ONLY":
+                R.fail(iid, where(f, k.line), Finding(R.rule, f["file"], base_name(f["q"]), "sparse:" + u,
+                       "a node of the set forest is unpacked SPARSE_ONLY: its handle-0 children are skipped, and for integer-distance sets handle 0 is distance 0 (the initial states), not `unreachable`", k.line))
+            else:
+                R.ok(iid, where(f, k.line))
+        for b in g.nodes:
+            if b.kind != "branch" or not b.cond or len(b.succ) != 2:
+                continue
+            m = re.fullmatch(r"!?(\w+)->down\(\w+\)", re.sub(r"\s+", "", b.cond["text"]))
+            m2 = re.fullmatch(r"(?:0==(\w+)->down\(\w+\)|(\w+)->down\(\w+\)==0)", re.sub(r"\s+", "", b.cond["text"]))
+            u = (m.group(1) if m else None) or ((m2.group(1) or m2.group(2)) if m2 else None)
+            if u and u in setnodes:
+                n += 1
+                R.paths += 1
+                R.functions.add(f["inst"])
+                R.fail("%s: `%s` used as a truth value" % (base_name(f["q"]).replace(M, "")[:50], b.cond["text"]), where(f, b.line),
+                       Finding(R.rule, f["file"], base_name(f["q"]), "truth:" + re.sub(r"\s+", "", b.cond["text"]),
+                               "the child handle of set node `%s` is tested for zero instead of asking ATYPE::isUnreachable: handle 0 is `not in the set` only for boolean sets" % u, b.line))
+    if n < 6:
+        raise AnalysisBroken("sibling.policy-reachability: only %d set-node definitions found in the image / saturation templates, expected ≥6" % n)
+    R.require_floor(6, "set-node uses in the image / saturation templates")
+    return R
+
+
+RULES = [rule_counter_width, rule_mirror_simplify, rule_swap_loops, rule_image_fire, rule_small_hole_threshold, rule_graph_diagonals, rule_large_hole_threshold, rule_refcount_twins, rule_heap_pop_order, rule_policy_reachability]
